@@ -19,7 +19,11 @@ use std::sync::Arc;
 
 type Req = (usize, Dir);
 
-const POOL_QUICK: [Req; 14] = [
+const POOL_QUICK: [Req; 17] = [
+    // 83: Bluestein base under every planner (82 = 2*41); 192 is the AVX planner's Bluestein inner length for it
+    (83, Dir::Fwd),
+    (83, Dir::Inv),
+    (192, Dir::Inv),
     (8, Dir::Fwd),
     (64, Dir::Fwd),
     (72, Dir::Fwd),
@@ -216,7 +220,8 @@ fn enumerate(pool: &[Req], max_len: usize) -> Vec<Vec<Req>> {
 }
 
 fn random_sequence(rng: &mut Rng) -> Vec<Req> {
-    let primes = [1usize, 11, 13, 37, 59, 127, 251, 1009];
+    // 59: Bluestein for scalar/SSE; 83, 107: Bluestein for every planner incl. AVX; 37, 127, 251, 1009: Rader
+    let primes = [1usize, 11, 13, 37, 59, 83, 107, 127, 251, 1009];
     let p = *rng.pick(&primes);
     let limit = 8192usize;
     // exponents of the base
